@@ -1,36 +1,68 @@
 (* C15 - text parsers return a well-formed value or an error for every input string.
-   State of the model: the UNFIXED tree (before F1-F4). *)
+   The model (Codec.v, Io.v) follows /repo after the fixes F1, F2, F2b, F3, F4 (findings/C15.txt).
+   O : oracles = arbitrary answers of strconv.Unquote/Quote, time.Parse/Format, ParseFloat, %v; the theorems
+   of this file hold for every such O (no law about the library is assumed). *)
 From Coq Require Import List NArith ZArith Bool String.
 From Coq.Strings Require Import Byte.
 Import ListNotations.
 From BWValues Require Import Bytes Values Codec Uuid Io Dom Corr CodecProofs.
 
-Definition no_oracles : oracles :=
-  mkOracles (fun _ => None) (fun s => s) (fun _ => None) (fun _ => []) (fun _ => None) (fun _ => []).
+(* for ALL byte strings and all library answers: no parser reaches an out-of-range index or slice *)
+Theorem C15_no_panic : forall (O : oracles) (s : str) (site : site),
+  parse_node s <> Panic site /\ parse_pred O s <> Panic site /\ parse_literal O s <> Panic site /\
+  parse_object O s <> Panic site /\ parse_triple O s <> Panic site.
+Proof.
+  intros O s site.
+  repeat split.
+  - apply (good_not_panic _ _ _ (parse_node_good s)).
+  - apply (good_not_panic _ _ _ (parse_pred_good O s)).
+  - apply (good_not_panic _ _ _ (parse_literal_good O s)).
+  - apply (good_not_panic _ _ _ (parse_object_good O s)).
+  - apply (good_not_panic _ _ _ (parse_triple_good O s)).
+Qed.
+Print Assumptions C15_no_panic.
 
-(* whatever node.Parse accepts is a node the constructors accept *)
-Theorem C15_node_wf : forall s n, parse_node s = Ok n -> wf_node n = true.
-Proof. exact parse_node_wf. Qed.
-Print Assumptions C15_node_wf.
+(* never "no value and no error"; an accepted value is one the constructors accept
+   (node: type and id checks; predicate: non-empty id; literal: int64 range; object: one component; triple: all three) *)
+Theorem C15_wf_or_error : forall (O : oracles) (s : str),
+  (parse_node s <> NilNil /\ forall n, parse_node s = Ok n -> wf_node n = true) /\
+  (parse_pred O s <> NilNil /\ forall p, parse_pred O s = Ok p -> wf_pred p = true) /\
+  (parse_literal O s <> NilNil /\ forall l, parse_literal O s = Ok l -> wf_literal l = true) /\
+  (parse_object O s <> NilNil /\ forall o, parse_object O s = Ok o -> wf_object o = true) /\
+  (parse_triple O s <> NilNil /\ forall t, parse_triple O s = Ok t -> wf_triple t = true).
+Proof.
+  intros O s.
+  repeat split;
+    try (apply (good_not_panic _ _ _ (parse_node_good s)));
+    try (apply (good_not_panic _ _ _ (parse_pred_good O s)));
+    try (apply (good_not_panic _ _ _ (parse_literal_good O s)));
+    try (apply (good_not_panic _ _ _ (parse_object_good O s)));
+    try (apply (good_not_panic _ _ _ (parse_triple_good O s))).
+  - intros n. apply good_ok_wf. apply parse_node_good.
+  - intros n. apply good_ok_wf. apply parse_pred_good.
+  - intros n. apply good_ok_wf. apply parse_literal_good.
+  - intros n. apply good_ok_wf. apply parse_object_good.
+  - intros n. apply good_ok_wf. apply parse_triple_good.
+Qed.
+Print Assumptions C15_wf_or_error.
 
-(* the full statement is false of the faithful model (and of the code: each witness is replayed by checks/c15.py) *)
-Theorem C15_no_panic_node_refuted : exists s site, parse_node s = Panic site.
-Proof. exists (lit "_"), S_node_blank. vm_compute. reflexivity. Qed.
-Print Assumptions C15_no_panic_node_refuted.
+(* an invalid object (all components nil) is never produced *)
+Theorem C15_no_invalid_object : forall (O : oracles) (s : str),
+  parse_object O s <> Ok OInvalid /\ forall t, parse_triple O s = Ok t -> tobj t <> OInvalid.
+Proof.
+  intros O s. split.
+  - intros H. pose proof (good_ok_wf _ _ _ _ (parse_object_good O s) H). discriminate.
+  - intros t H E. pose proof (good_ok_wf _ _ _ _ (parse_triple_good O s) H) as W.
+    unfold wf_triple in W. rewrite E in W. cbn in W. rewrite !andb_false_r in W. discriminate.
+Qed.
+Print Assumptions C15_no_invalid_object.
 
-Theorem C15_no_panic_pred_refuted : exists O s site, parse_pred O s = Panic site.
-Proof. exists no_oracles, (lit """@["), S_pred_ta. vm_compute. reflexivity. Qed.
-Print Assumptions C15_no_panic_pred_refuted.
+(* the statements are not vacuous: the parsers do accept *)
+Definition ex_oracles : oracles :=
+  mkOracles (fun s => if str_eqb s (lit """p""") then Some (lit "p") else None) (fun s => [x22] ++ s ++ [x22])
+            (fun _ => None) (fun _ => []) (fun _ => None) (fun _ => []).
 
-Theorem C15_no_panic_literal_refuted : exists O s site, parse_literal O s = Panic site.
-Proof. exists no_oracles, (lit """""^^type:blob"), S_lit_blob. vm_compute. reflexivity. Qed.
-Print Assumptions C15_no_panic_literal_refuted.
-
-Theorem C15_no_panic_triple_refuted : exists O s site, parse_triple O s = Panic site.
-Proof. exists no_oracles, (lit "] ""> """), S_triple_sp. vm_compute. reflexivity. Qed.
-Print Assumptions C15_no_panic_triple_refuted.
-
-Theorem C15_wf_or_error_refuted :
-  exists O s, parse_literal O s = NilNil /\ parse_object O s = Ok OInvalid.
-Proof. exists no_oracles, (lit """x""^^type:foo"). vm_compute. split; reflexivity. Qed.
-Print Assumptions C15_wf_or_error_refuted.
+Example C15_accepts_example :
+  parse_triple ex_oracles (lit "/a<b>	""p""@[]	""[1 2]""^^type:blob")
+  = Ok (mkTriple (mkNode (lit "/a") (lit "b")) (mkPred (lit "p") None) (OLit (LBlob [x01; x02]))).
+Proof. vm_compute. reflexivity. Qed.
